@@ -23,10 +23,11 @@ Definition Legal (f : forest) (o : op) : Prop :=
   | _ => False
   end.
 
-(* fuel only bounds the sibling chains walked by RemoveChildren and SortChildren *)
+(* fuel only bounds the sibling chains walked by RemoveChildren and SortChildren (the
+   insertion sort walks the sorted prefix once per element: twice the child count suffices) *)
 Definition fuel_ok (fuel : nat) (f : forest) (o : op) : Prop :=
   match o with
-  | ORemoveChildren s | OSort s _ => (length (ch f s) < fuel)%nat
+  | ORemoveChildren s | OSort s _ => (2 * length (ch f s) < fuel)%nat
   | _ => True
   end.
 
